@@ -10,7 +10,7 @@
    against its parent in the target store (finding F09 fixed), and with the
    block store ahead of the filter store the file is linked to the block
    header at the EFFECTIVE tip and every filter-only batch carries the hash
-   of the block header at its last height (finding F27 fixed).
+   of the block header at its last height (finding F-C14-3 fixed).
 
    Positions in the import file ([index]) and block heights ([height]) are
    distinct wrapper types; every conversion is explicit ([ix_of_height],
@@ -377,7 +377,7 @@ Definition connection (s : stores) (b : bsource) (th prevh : height) : bool :=
   | _, _ => false
   end.
 
-(* validateChainContinuity.  REPAIR of F27: the header above the effective
+(* validateChainContinuity.  REPAIR of F-C14-3: the header above the effective
    tip is linked to the block header AT the effective tip (the unrepaired code
    handed the block tip height to validateHeaderConnection, which rejected
    every file reaching above the filter tip when the block store is ahead). *)
@@ -478,7 +478,7 @@ Definition process_batch (fl : faults) (c : ctr) (s : stores) (b : bsource) (f :
                   | ABlock => hz batch_start + Z.of_nat (length bb) - 1
                   | _ => hz batch_start + Z.of_nat (length fb) - 1 end in
       (* filter-only mode: tie the filter tip to the block header at the
-         batch's last height (REPAIR of F27: the unrepaired code did this only
+         batch's last height (REPAIR of F-C14-3: the unrepaired code did this only
          for the batch it took for the last one, comparing a HEIGHT with an
          INDEX, and demanded that the block tip be at that height) *)
       let fb1 :=
